@@ -160,6 +160,13 @@ Theorem C05_traverse_df_btt : forall c inh, el_ok c = true -> NoDup (cel_ids c) 
   c_traverse_df_btt c ftrue F n = Ok (filter (fun x => N.eqb x n || F x) (a_df_btt (abs_el inh c) n)).
 Proof. exact c_traverse_df_btt_abs. Qed.
 Print Assumptions C05_traverse_df_btt.
+(* under an ambient filter D: exactly the post-order through the D-visible children, restricted to the passed filters,
+   the given root yielded in any case *)
+Theorem C05_traverse_df_btt_ambient : forall c inh, el_ok c = true -> NoDup (cel_ids c) ->
+  forall D F n, In n (ids (abs_el inh c)) ->
+  c_traverse_df_btt c D F n = Ok (filter (fun x => N.eqb x n || F x) (a_post_vis (abs_el inh c) D n)).
+Proof. exact c_traverse_df_btt_ambient. Qed.
+Print Assumptions C05_traverse_df_btt_ambient.
 (* regression for finding C05-df-btt-prunes (repaired in b0bcfbb): <r><a>x</a></r> with the filter "text nodes" *)
 Example C05_traverse_df_btt_regression : c_traverse_df_btt refute_tree ftrue (fun i => N.eqb i 2) 0%N = Ok [2; 0]%N.
 Proof. exact df_btt_filtered_regression. Qed.
@@ -238,8 +245,9 @@ Example C05_example_descendants :
 Proof. vm_compute. repeat split; reflexivity. Qed.
 
 (* NOT covered by theorem (modelled in Conc/CNav.v, compared with the code and searched directly on every run):
-   - the traversers under an ambient filter (they walk through visible children only; traverse_bf_ltr_ttb applies the
-     passed filters to the given root, the depth-first ones yield it unconditionally);
+   - traverse_bf_ltr_ttb under an ambient filter (it walks level by level through visible children only and applies the
+     passed filters to the given root too); traverse_df_ltr_ttb (C05_one_tree) and traverse_df_ltr_btt
+     (C05_traverse_df_btt_ambient) are stated exactly for every ambient filter;
    - the sorter and `index` paths under an ambient filter (indexes are then positions among the visible siblings;
      a hidden tag node raises InvalidCodePath);
    - root-level siblings of a document (prologue / epilogue comments and PIs; model: `heap_doc`) and DETACHED text nodes
